@@ -57,9 +57,10 @@ class LiveTarget(object):
                 rec["din_target"] = list(out)
             elif op in wr:
                 for i in range(n):
-                    self.disk[lba + i] = bytes(dataout[i * self.bs:(i + 1) * self.bs])
+                    # (a buffer shorter than announced is written as far as it goes, the rest reads as zero: Trace_Target!Wr)
+                    self.disk[lba + i] = bytes(dataout[i * self.bs:(i + 1) * self.bs]).ljust(self.bs, b"\0")
             else:
-                blk = bytes(self.bs) if (op == 0x93 and cdb[1] & 1) else bytes(dataout[:self.bs])
+                blk = bytes(self.bs) if (op == 0x93 and cdb[1] & 1) else bytes(dataout[:self.bs]).ljust(self.bs, b"\0")
                 if n == 0 and self.cap < 16:
                     n = self.cap + 1 - lba        # NUMBER OF LOGICAL BLOCKS 0: to the end of the medium (small media only)
                 for i in range(n):
@@ -141,6 +142,8 @@ def history(rng, facade, tgt, tr, bs, n_ops):
                     kw["ndob"] = 1
                 data = bytes(rng.getrandbits(8) or 1 for _ in range(bs))
                 a["nb"] = n
+                if m == "writesame16":
+                    a["ndob"] = kw.get("ndob", 0)      # the caller's NDOB: the target must read the same off the CDB
                 cmd = getattr(facade, m)(lba, n, None if kw.get("ndob") else bytearray(data), **kw)
                 if kw.get("ndob"):
                     data = b""
